@@ -13,6 +13,7 @@ import (
 	"sync"
 	"time"
 
+	"github.com/evanoberholster/imagemeta/exif2"
 	"vh/internal/drv"
 )
 
@@ -97,6 +98,24 @@ func entriesFor(in epInput, c *Ctx) []string {
 func init() {
 	props["C01"] = runC01
 	props["C02"] = runC02
+	// rawops <fill> <exifLength> <hex stream> <op>... : VerifRawOps, per op "bytes:err:po"
+	workerOps["rawops"] = func(a []string) string {
+		var fill, exl int
+		fmt.Sscanf(a[0], "%d", &fill)
+		fmt.Sscanf(a[1], "%d", &exl)
+		var ops []int
+		for _, o := range a[3:] {
+			var k int
+			fmt.Sscanf(o, "%d", &k)
+			ops = append(ops, k)
+		}
+		outs, errs, pos := exif2.VerifRawOps(unhex(a[2]), uint32(exl), ops, byte(fill))
+		var parts []string
+		for i := range outs {
+			parts = append(parts, fmt.Sprintf("%s:%s:%d", hexs(outs[i]), canonErr(errs[i]), pos[i]))
+		}
+		return strings.Join(parts, " ")
+	}
 }
 
 func buildCases(c *Ctx, ins []epInput, optsFor func(in epInput, entry string) []string) []epCase {
@@ -290,7 +309,10 @@ func runC08(c *Ctx) error {
 		return []string{"sched=1", fmt.Sprintf("sched=%d,%d", 1+c.Rng.Intn(7), 1+c.Rng.Intn(3)), fmt.Sprintf("sched=%d,%d,%d deof", 1+c.Rng.Intn(600), 1+c.Rng.Intn(40), 1+c.Rng.Intn(5000)), "deof", "sched=1 deof"}
 	}
 	var cases []epCase
-	type grp struct{ ref int; alts []int }
+	type grp struct {
+		ref  int
+		alts []int
+	}
 	var groups []grp
 	for _, in := range ins {
 		for _, e := range entriesFor(in, c) {
@@ -362,6 +384,9 @@ func runC04(c *Ctx) error {
 		}
 	}
 	sweep(cases, 10*time.Second)
+	if err := rawOpsCheck(c); err != nil {
+		return err
+	}
 	for _, g := range groups {
 		ref := cases[g.idx[0]]
 		refRes := ref.Ans.Canon
@@ -381,6 +406,52 @@ func runC04(c *Ctx) error {
 				c.Violate(Case{Entry: a.Entry, Input: hexs(a.In.Data) + " " + a.Opts, Expected: refRes, Actual: res, Kind: "wrong-value",
 					Class: "history:" + diffClass(refRes, res, ""), Note: a.In.Name})
 			}
+		}
+	}
+	return nil
+}
+
+// rawOpsCheck: the reader's two stream primitives on a plain reader (verif hook VerifRawOps) with the pooled scratch buffer
+// pre-filled in two different ways: what they hand out, their errors and positions must not depend on the fill
+// (noninterference of the one primitive that touches pooled memory), and must equal the Lean model's fastRead / discard.
+func rawOpsCheck(c *Ctx) error {
+	var reqs, mreqs []string
+	for i := 0; i < c.N(300, 6000); i++ {
+		n := []int{0, 1, 5, 40, 600, 1500, 3000}[c.Rng.Intn(7)]
+		stream := rbytes(c, c.Rng.Intn(n+1))
+		exl := []int{4 << 20, 4 << 20, 0, 1 + c.Rng.Intn(4000)}[c.Rng.Intn(4)]
+		var ops []string
+		for k := 0; k < 1+c.Rng.Intn(8); k++ {
+			switch c.Rng.Intn(5) {
+			case 0:
+				ops = append(ops, fmt.Sprint(-(c.Rng.Intn(1500))))
+			case 1:
+				ops = append(ops, fmt.Sprint([]int{1024, 1025, 1023, 2000}[c.Rng.Intn(4)]))
+			default:
+				ops = append(ops, fmt.Sprint(1+c.Rng.Intn(200)))
+			}
+		}
+		reqs = append(reqs, fmt.Sprintf("%d %s %s", exl, hexs(stream), strings.Join(ops, " ")))
+		mreqs = append(mreqs, fmt.Sprintf("exif.rawops %d %s %s", exl, hexs(stream), strings.Join(ops, " ")))
+	}
+	model, err := drv.Batch(mreqs)
+	if err != nil {
+		return err
+	}
+	a := make([]string, len(reqs))
+	b := make([]string, len(reqs))
+	runPool(len(reqs), 8*time.Second, func(wk *Worker, i int) {
+		a[i] = wk.Call("rawops 1 " + reqs[i])
+		b[i] = wk.Call("rawops 200 " + reqs[i])
+	})
+	for i := range reqs {
+		c.Count("rawops"+reqs[i], true)
+		c.Stat("rawops.compared")
+		if a[i] != b[i] {
+			c.Violate(Case{Entry: "exif2.fastRead", Input: reqs[i], Expected: a[i], Actual: b[i], Kind: "wrong-value", Class: "history:scratch-buffer-content-visible"})
+		}
+		if model[i] != a[i] {
+			c.Disagree(Case{Entry: "exif2.fastRead/discard", Input: reqs[i], Expected: model[i], Actual: a[i]})
 		}
 	}
 	return nil
@@ -418,7 +489,10 @@ func runC15(c *Ctx) error {
 	ins := append(corpus(c, c.N(5, 150), c.N(40, 1500)), genExifInputs(c, c.N(30, 800))...)
 	levels := []string{"trace", "debug", "info", "warn", "error", "fatal", "panic", "disabled"}
 	var cases []epCase
-	type grp struct{ ref int; alts []int }
+	type grp struct {
+		ref  int
+		alts []int
+	}
 	var groups []grp
 	for _, in := range ins {
 		for _, e := range entriesFor(in, c) {
